@@ -54,7 +54,8 @@ class Layout:
     def add_fallback(self, subject_digest, rdescs, tagname=None):
         """index of referrers under the fallback tag of the subject"""
         a, h = subject_digest.split(":")
-        tagname = tagname or ("%s-%s" % (a, h))[:128]
+        # OCI distribution spec, referrers tag schema: <alg>-<ref> with the digest's hex part limited to 64 characters
+        tagname = tagname or "%s-%s" % (a, h[:64])
         body = index_manifest(rdescs)
         d = self.add_blob(body)
         self.entries.append({"mediaType": MT_OCI_I, "digest": d, "size": len(body), "annotations": {REFNAME: tagname}})
@@ -84,7 +85,7 @@ def legacy_layout(rng, repo, kind=None):
     """a layout maintained with the fallback-tag scheme; returns (Layout, expected referrers {subject: set of digests},
     tags that must survive {tag: digest})"""
     L = Layout(repo)
-    kind = kind or rng.choice(["accurate", "accurate", "stale", "mixed", "wrongdesc", "coexist", "sha512", "missing", "two-subjects"])
+    kind = kind or rng.choice(["accurate", "accurate", "stale", "mixed", "wrongdesc", "coexist", "sha512", "missing", "two-subjects"])     # (C17 enumerates all kinds incl. coexist2, valid-plus-mixed)
     L.kind = kind
     img, dimg = L.add_image(tag="v1")
     img2, dimg2 = L.add_image(tag="v2", layers=(b"hello",))
@@ -115,6 +116,27 @@ def legacy_layout(rng, repo, kind=None):
         # an older converted response next to a fallback tag that knows one more referrer
         L.add_response(dimg, rds[:1])
         L.add_fallback(dimg, rds)
+    elif kind == "coexist2":
+        # a converted response and a fallback tag that each know a referrer the other does not
+        extra = L.add_artifact(sdesc, artifact_type="application/vnd.example.sig", n=8)
+        expect[dimg].add(extra[1])
+        L.add_response(dimg, rds[:1] + [extra[2]])
+        later = L.add_artifact(sdesc, artifact_type="application/vnd.example.sbom", n=9)
+        expect[dimg].add(later[1])
+        L.add_fallback(dimg, rds + [later[2]])
+    elif kind == "valid-plus-mixed":
+        # an accurate fallback tag for the first subject, and a fallback tag of the second subject that also lists
+        # one more referrer of the first
+        b3 = L.add_artifact(sdesc2, artifact_type="application/vnd.example.sig", n=7)
+        a4 = L.add_artifact(sdesc, artifact_type="application/vnd.example.sig", n=6)
+        expect[dimg2] = {b3[1]}
+        expect[dimg].add(a4[1])
+        if rng.random() < 0.5:
+            L.add_fallback(dimg, rds)
+            L.add_fallback(dimg2, [b3[2], a4[2]])
+        else:
+            L.add_fallback(dimg2, [b3[2], a4[2]])
+            L.add_fallback(dimg, rds)
     elif kind == "sha512":
         img5 = image_manifest(desc(MT_CFG, b"{}"), [])
         d5 = dg("sha512", img5)
